@@ -19,13 +19,15 @@ ID = "C10"
 LEVEL = "model_checking"
 RULE = ("case = (system/grid/adpt_mesh/adpt_fac/symmetry/rank configuration, first refinement choice); below it every "
         "history of refinement choices up to the depth bound is executed through the real run() in each storage mode "
-        "(memory, allow_restart, dump_results; 'discarded' at depth 0); state = snapshot of the live K-point list after an "
+        "(memory, allow_restart, dump_results, memory with the number of iterations given in the negative form; 'discarded' at depth 0); state = snapshot of the live K-point list after an "
         "iteration, transition = one refinement iteration; oracle at every state: saved/returned integral == sum_K "
         "factor_K*R(K) over the snapshot, sum of weights == 1, and all storage modes agree; non-trivial = history of "
-        "depth >= 1 (distinct final K-list multisets are counted)")
+        "depth >= 1 (distinct final K-list multisets are counted).  Descent cases = (configuration, word over {first,last}): "
+        "every iteration refines the first/last of the sub-cells created by the previous one, down to weights below 1e-9 "
+        "(quick: 3 words per configuration, thorough: every word); same oracle; non-trivial = a point of weight < 1e-8 was divided")
 ASSUMPTIONS = ["depth <= 2 refinement iterations (quick; 3 for the bcc configuration); thorough: depth 3 for adpt_fac=1 and for the 1D chains, 2 otherwise; grids with <= 9 initial K-points",
                "per-K results are scripted (generic recognisable values); the property is about run()'s bookkeeping, which does not look at the values",
-               "weight changes below the library's own 1e-8 cut in factors_diff_dict are not reached at these depths",
+               "weights below 1e-8 are reached only by the descent cases (one refined point per iteration, each a sub-cell of the previous one)",
                "refinement is steered through the result's `max` criterion; dead (zero-weight) points are never selected"]
 
 TOL = 1e-11
@@ -96,6 +98,13 @@ def run_history(cfg, seed, history, mode, d):
     kw = dict(adpt_num_iter=len(history), adpt_mesh=cfg["mesh"], adpt_fac=cfg["fac"], use_irred_kpt=cfg["irred"],
               symmetrize=cfg["irred"], parallel=False, fout_name=os.path.join(sub, "res"),
               file_Klist_path=os.path.join(sub, "klist"))
+    if mode == "memory_negative":
+        # the documented alternative way of giving the number of iterations: a negative number n means
+        # |n| * prod(NKdiv) / prod(adpt_mesh) / adpt_fac / 3 iterations
+        if len(history) == 0:
+            kw["adpt_num_iter"] = -0.0
+        else:
+            kw["adpt_num_iter"] = -(len(history) * 3.0 * cfg["fac"] * float(np.prod(cfg["mesh"])) / float(np.prod(cfg["div"])))
     if mode == "allow_restart":
         kw["allow_restart"] = True
     elif mode == "dump_results":
@@ -122,7 +131,7 @@ def expected(cfg, seed, snap, system):
 
 def check_history(cfg, seed, history):
     """returns (failure dict or None, final snapshot, n_states, n_transitions)"""
-    modes = ["memory", "allow_restart", "dump_results"]
+    modes = ["memory", "allow_restart", "dump_results"] + (["memory_negative"] if len(history) > 0 else [])
     per_mode = {}
     with tmpdir("wbmc_c10_") as d:
         for m in modes:
@@ -172,8 +181,44 @@ def first_choices(cfg, seed):
     return fail, [list(c) for c in itertools.combinations(live, cfg["fac"])]
 
 
+DESCENTS = [
+    # (configuration, number of iterations): the last iterations divide points whose weight is below 1e-8
+    ({"sys": "planar", "div": [2, 2, 1], "mesh": 4, "fac": 1, "irred": False, "rank": 0, "depth": 0}, 9),
+    ({"sys": "cubic", "div": [2, 2, 2], "mesh": 4, "fac": 1, "irred": False, "rank": 0, "depth": 0}, 6),
+    ({"sys": "cubic", "div": [2, 2, 2], "mesh": 4, "fac": 1, "irred": True, "rank": 1, "depth": 0}, 6),
+    ({"sys": "hexC3", "div": [3, 3, 1], "mesh": 3, "fac": 1, "irred": True, "rank": 0, "depth": 0}, 9),
+]
+
+
+def descent_history(cfg, seed, word):
+    """history in which iteration i refines the first ('F') / last ('L') live point of the deepest refinement level"""
+    hist = []
+    divided = []
+    for ch in word:
+        with tmpdir("wbmc_c10d_") as d:
+            snaps = run_history(cfg, seed, hist, "memory", d)[0]
+        last = snaps[-1][1]
+        if last is None:
+            with tmpdir("wbmc_c10d_") as d:
+                run_history(cfg, seed, hist, "allow_restart", d)
+                last = refine.snapshots_from_files(os.path.join(d, "allow_restart", "klist"))[len(hist)]
+        lvl = max(k[0] for k, f, ev in last if f > 0)
+        cands = [(k, f) for k, f, ev in last if f > 0 and k[0] == lvl]
+        k, f = cands[0] if ch == "F" else cands[-1]
+        hist.append([k])
+        divided.append(f)
+    return hist, divided
+
+
 def cases(tier, seed):
     from wbmc.engine import quiet
+    for cfg, D in DESCENTS:
+        if tier == "quick":
+            words = ["F" * D, "L" * D, ("FL" * D)[:D]]
+        else:
+            words = ["".join(w) for w in itertools.product("FL", repeat=D)]
+        for w in words:
+            yield {"cfg": cfg, "descent": w}
     for cfg in configs(tier):
         with quiet():
             fail, firsts = first_choices(cfg, seed)
@@ -187,7 +232,19 @@ def run_case(case, seed):
     cfg = case["cfg"]
     if "history" in case:                       # replay of one recorded history
         fail, snaps = check_history(cfg, seed, [[refine.tuplify(k) for k in it] for it in case["history"]])
-        return fail or {"ok": True, "nontrivial": True, "states": len(case["history"]) + 1, "transitions": len(case["history"]), "traces": 3}
+        return fail or {"ok": True, "nontrivial": True, "states": len(case["history"]) + 1, "transitions": len(case["history"]), "traces": 4}
+    if "descent" in case:
+        hist, divided = descent_history(cfg, seed, case["descent"])
+        fail, snaps = check_history(cfg, seed, hist)
+        if fail:
+            fail["replay_case"] = {"cfg": cfg, "history": hist}
+            fail["detail"] += f" [descent {case['descent']}: divided weights {['%.3g' % x for x in divided]}]"
+            fail.update({"states": len(hist) + 1, "transitions": len(hist), "traces": 4})
+            return fail
+        small = min(divided) < 1e-8
+        return {"ok": True, "nontrivial": ("descent", repr(cfg), case["descent"]) if small else False, "states": len(hist) + 1,
+                "transitions": len(hist), "traces": 4, "outcome": "descent",
+                "obs": {"divided_weights": [float("%.3g" % x) for x in divided], "final_points": len(snaps[-1][1])}}
     if case["first"] is None:
         fail, snaps = check_history(cfg, seed, [])
         # discarded mode: adpt_num_iter=0 without restart => results are cleared after use; covered by 'memory'
@@ -199,7 +256,7 @@ def run_case(case, seed):
     while frontier:
         hist = frontier.pop()
         fail, snaps = check_history(cfg, seed, hist)
-        nruns += 3
+        nruns += 4
         if fail:
             fail["replay_case"] = {"cfg": cfg, "history": hist}
             fail.update({"states": nstates + 1, "transitions": ntrans + 1, "traces": nruns})
